@@ -275,6 +275,10 @@ func Main() {
 	if opt["replay"] != "" {
 		os.Exit(replay(opt["replay"]))
 	}
+	if opt["racepass"] != "" {
+		n, _ := strconv.Atoi(opt["racepass"])
+		os.Exit(RacePassMain(max(1, n)))
+	}
 	p := registry[opt["prop"]]
 	if p == nil {
 		fmt.Fprintf(os.Stderr, "unknown property %q\n", opt["prop"])
@@ -454,8 +458,14 @@ func report(p *Property, tier string, seed int, root string, results []*ScenResu
 		for _, h := range r.Nontrivial {
 			nontriv[r.Scenario+h] = true
 		}
-		if !r.Exhaustive {
+		if !r.Exhaustive && r.Class != "auxiliary" {
+			// auxiliary passes (e.g. the free-running race-detector run) are listed with their own status; the exhaustive flag of
+			// the check speaks about the deciding, enumerating jobs
 			exhaustive = false
+		}
+		if r.Class == "auxiliary" {
+			evals -= r.Executions
+			extra["auxiliary_executions"] += r.Executions
 		}
 		if len(samples) < 4 {
 			for _, s := range r.Samples {
